@@ -17,7 +17,7 @@ trap cleanup EXIT
 if ! git -C "$WT" apply "$SRC/patch.diff"; then echo "RESULT $NAME patch does not apply"; exit 2; fi
 if ! (cd "$WT" && go build ./... 2>&1 | head -5); then echo "RESULT $NAME does not build"; exit 2; fi
 if [ -z "${SKIP_CONFIRM:-}" ]; then
-  FAILS="$(cd "$WT" && go test -vet=off -count=1 ./... 2>&1 | grep '^FAIL[[:space:]]\|^--- FAIL' | grep -v 'cmd/docgen/docs\|TestGenerateDocs' | head -5)"
+  FAILS="$(cd "$WT" && go test -vet=off -count=1 ./... 2>&1 | grep '^FAIL[[:space:]]\|^--- FAIL' | grep -v 'cmd/docgen/docs\|TestGenerateDocs' | { if command -v msgmerge >/dev/null; then cat; else grep -v 'utils/po\|TestLibrary'; fi; } | head -5)"
   if [ -n "$FAILS" ]; then
     # the repository's tests listen on fixed local ports: other suites running at the same time make them fail; retry those packages alone
     PKGS="$(echo "$FAILS" | grep '^FAIL[[:space:]]' | awk '{print $2}' | sort -u)"
